@@ -349,8 +349,13 @@ def finish(ctx, module, level, rule, assumptions, extra_cov=None):
     by_site = collections.OrderedDict()
     for v in res.viols:
         by_site.setdefault(v["site"], v)
+    MAXREP = int(os.environ.get("VERIF_MAX_SITES", "40"))
+    more = []
     for site, v in by_site.items():
         if site.startswith("HARNESS/"):
+            continue
+        if len(reported) >= MAXREP and not [f for f in findings if f["site"] == site]:
+            more.append(site)       # a run with this many violating sites is not silent anyway; the rest is listed, not replayed
             continue
         # every candidate is re-executed twice on fresh objects before it is believed
         try:
@@ -382,6 +387,8 @@ def finish(ctx, module, level, rule, assumptions, extra_cov=None):
         print("VIOLATION property=%s replay=%s" % (pid, path))
         print("  site=%s count=%d :: %s" % (site, res.nviol[site], v["what"][:400]))
         status = 1
+    if more:
+        print("  ... and %d more violating sites (listed in the evidence file, not replayed)" % len(more))
     for e in ctx.harness_errors:
         print("HARNESS-ERROR property=%s %s" % (pid, e))
         status = max(status, 2)
@@ -396,6 +403,7 @@ def finish(ctx, module, level, rule, assumptions, extra_cov=None):
         "parts": ctx.parts,
         "known_findings_hit": known_hit,
         "violating_sites": reported,
+        "violating_sites_not_replayed": more,
         "repo": REPO,
         "notes": ctx.notes,
     }
